@@ -56,6 +56,13 @@ func init() {
 		if probe.Spec == "Keyed" {
 			return handleKeyed("c03", c)
 		}
+		if probe.Spec == "Relational" {
+			var cs rCase
+			if err := json.Unmarshal(c, &cs); err != nil {
+				return &Obs{Fails: []Fail{{Sig: Signature{Symptom: "bad-case"}, Detail: err.Error()}}}
+			}
+			return handleRelationalMode("c03", c, &cs)
+		}
 		return handleSetAlg("c03", c)
 	}
 }
